@@ -121,11 +121,30 @@ func memProjection(m memory.Memory) string {
 	return out
 }
 
+// farOff: offsets from farOff on denote a second window 2^63 bytes behind the first one (blocks and accesses that are
+// as far apart as the address space allows); the specification just sees larger offsets
+const farOff = 128
+
+func (s *memSession) at(off int) model.Addr {
+	if off >= farOff {
+		return model.Addr(s.base + 1<<63 + uint64(off-farOff))
+	}
+	return model.Addr(s.base + uint64(off))
+}
+
+func (s *memSession) offOf(a uint64) uint64 {
+	d := a - s.base
+	if d >= 1<<63 && d < 1<<63+farOff {
+		return d - 1<<63 + farOff
+	}
+	return d
+}
+
 func (s *memSession) ivs(m interval.Map[model.Addr]) ([][]int, bool) {
 	r := [][]int{}
 	outside := false
 	for _, iv := range m.Intervals() {
-		lo, hi := uint64(iv.Begin())-s.base, uint64(iv.End())-s.base
+		lo, hi := s.offOf(uint64(iv.Begin())), s.offOf(uint64(iv.End()))
 		if lo > 1<<20 || hi > 1<<20 {
 			outside = true
 			lo, hi = 1<<20, 1<<20
@@ -151,7 +170,7 @@ func (s *memSession) newBytes(blocks []memBlock, ev *memEvent) (*memory.Bytes, b
 	bb := make([]memory.ByteBlock, len(blocks))
 	for i, b := range blocks {
 		bs := bytesOf(b.Bytes)
-		bb[i] = blockImpl{begin: model.Addr(s.base + uint64(b.Off)), bs: bs}
+		bb[i] = blockImpl{begin: s.at(b.Off), bs: bs}
 		s.track(fmt.Sprintf("initial block %d", i), func() string { return fmt.Sprint(bs) })
 	}
 	m, err := memory.NewBytes(bb)
@@ -216,7 +235,7 @@ func init() {
 						src = s.lower
 					}
 					bs := make([]int, c.W)
-					if e, ok := src.Load(model.Addr(s.base+uint64(c.Off)), expr.Width(c.W)); ok {
+					if e, ok := src.Load(s.at(c.Off), expr.Width(c.W)); ok {
 						if cst, isConst := exprtransform.ConstFold(e).(expr.Const); isConst {
 							bs = ints(cst.WithWidth(expr.Width(c.W)).Bytes())
 						}
@@ -230,9 +249,9 @@ func init() {
 				if c.Layer == "base" {
 					m = s.lower
 				}
-				m.Store(model.Addr(s.base+uint64(c.Off)), v, expr.Width(c.W))
+				m.Store(s.at(c.Off), v, expr.Width(c.W))
 			case "load":
-				e, ok := s.mem.Load(model.Addr(s.base+uint64(c.Off)), expr.Width(c.W))
+				e, ok := s.mem.Load(s.at(c.Off), expr.Width(c.W))
 				ev.Ok = ok
 				if ok {
 					d := NewDag()
@@ -241,7 +260,7 @@ func init() {
 					s.track(fmt.Sprintf("value returned by load(%d,%d)", c.Off, c.W), func() string { return exprJSON(e) })
 				}
 			case "missing":
-				mm := s.mem.Missing(model.Addr(s.base+uint64(c.Off)), expr.Width(c.W))
+				mm := s.mem.Missing(s.at(c.Off), expr.Width(c.W))
 				ev.Ivs, ev.Outside = s.ivs(mm)
 				// the map handed out stays what it was (it is kept and re-read after every later operation)
 				s.track(fmt.Sprintf("map returned by missing(%d,%d)", c.Off, c.W), func() string { return fmt.Sprint(mm.Intervals()) })
